@@ -37,7 +37,7 @@ ANCHORS = [
     ('pjrpc/client/client.py', 'AbstractClient._send'), ('pjrpc/client/client.py', 'AbstractAsyncClient._send'),
 ]
 _FAULTS = ['none', 'omit', 'duplicate', 'extra', 'retype', 'bool-id', 'float-id', 'null-id', 'extra-null-id', 'batch-level-error', 'garbage',
-           'omit-two', 'extra-two']
+           'omit-two', 'extra-two', 'omit+null-id-error']
 FLOORS = {'*': {**{f'fault:{f}:{k}': 5 for f in _FAULTS for k in ('sync', 'async')},
                 'permutation:non-identity-accepted': 50, 'single:equal': 10, 'single:different': 10, 'single:null': 10,
                 'single:retyped': 10, 'single:bool': 4, 'strict:off': 100, 'op:send': 200, 'op:call': 200,
@@ -342,6 +342,10 @@ def mutate(perm_doc, n, fault, k, rng):
     idx = k % len(d)
     if fault == 'omit':
         del d[idx]
+    elif fault == 'omit+null-id-error':
+        # one answer missing, and one null-id error element in its place (anywhere in the array)
+        del d[idx]
+        d.insert(rng.randrange(len(d) + 1), {'jsonrpc': '2.0', 'id': None, 'error': {'code': -32600, 'message': 'Invalid Request', 'data': k}})
     elif fault == 'omit-two':
         # two answers missing (with the 'mixed' id scheme: ids of different JSON types)
         del d[idx]
@@ -370,7 +374,9 @@ def mutate(perm_doc, n, fault, k, rng):
     return d
 
 
-GARBAGE = [None, True, 0, 1.5, 'text', {}, {'jsonrpc': '2.0'}, {'jsonrpc': '2.0', 'id': 1}, {'jsonrpc': '2.0', 'id': 1, 'result': 1},
+GARBAGE = [{'jsonrpc': '2.0', 'id': 1, 'result': 5, 'error': None}, [{'jsonrpc': '2.0', 'id': 1, 'result': 5, 'error': None}],
+           {'jsonrpc': '2.0', 'id': 1, 'result': None, 'error': None}, [{'jsonrpc': '2.0', 'id': 1, 'error': None}],
+           None, True, 0, 1.5, 'text', {}, {'jsonrpc': '2.0'}, {'jsonrpc': '2.0', 'id': 1}, {'jsonrpc': '2.0', 'id': 1, 'result': 1},
            {'jsonrpc': '1.0', 'id': None, 'error': {'code': 1, 'message': 'm'}}, {'jsonrpc': '2.0', 'id': None, 'error': {'code': '1', 'message': 'm'}},
            {'jsonrpc': '2.0', 'id': None, 'error': 'boom'}, [1], [None], [[]], ['x'], [{}], [{'jsonrpc': '2.0', 'id': 1}],
            [{'jsonrpc': '2.0', 'id': 1, 'result': 1, 'error': {'code': 1, 'message': 'm'}}], [{'jsonrpc': '2.0', 'id': 1, 'error': {'code': 1}}],
@@ -403,7 +409,7 @@ def gen(ctx):
                 ids = ('one', 'zero', 'str', 'one', 'mixed')[(k + len(perm)) % 5]
                 base = [elem_for(ids, i, mask[i - 1]) for i in perm]
                 for fault in ('none', 'omit', 'duplicate', 'extra', 'retype', 'bool-id', 'float-id', 'null-id', 'extra-null-id',
-                              'omit-two', 'extra-two'):
+                              'omit-two', 'extra-two', 'omit+null-id-error'):
                     if fault == 'omit-two' and n < 2:
                         continue
                     ks = range(n) if (deep or fault == 'none' or n <= 3) else [rng.randrange(n)]
@@ -430,7 +436,8 @@ def gen(ctx):
         rel = {'equal': rid, 'different': 2 if rid != 2 else 3, 'null': None, 'retyped': str(rid) if isinstance(rid, int) else 1,
                'bool': True, 'float': 1.0, 'list': [rid]}
         for relation, resp_id in rel.items():
-            for body in ({'result': 'r'}, {'result': None}, {'error': {'code': 7, 'message': 'm'}}, {'error': {'code': 0, 'message': ''}}):
+            for body in ({'result': 'r'}, {'result': None}, {'error': {'code': 7, 'message': 'm'}}, {'error': {'code': 0, 'message': ''}},
+                         {'result': 'r', 'error': None}, {'error': None}):
                 doc = {'jsonrpc': '2.0', 'id': resp_id, **body}
                 for strict in (True, False):
                     for is_async in (False, True):
